@@ -77,3 +77,213 @@ Example c15_example :
   check [FKnown a; FUnknown] [FKnown a; FKnown b; FUnknown] = MatchMerge /\
   merge [FKnown a; FUnknown] [FKnown a; FKnown b; FUnknown] = [FKnown a; FKnown b; FUnknown].
 Proof. split; reflexivity. Qed.
+
+(* ====================================================================================================================
+   Extension: STABLE / CONSISTENT / BOUNDED over ALL histories of rounds (Proofs/FlowHistory.v).
+     known_at e i a     position i of flow e is the known address a
+     conflict e f       some position is known in both flows with different addresses
+     regl s             the registry entries (flow, identifier) of the State, in registration order
+     cap s              the registry holds at most max(0, max_flows) entries
+     first_fit fl f     the identifier of the first entry of fl that does not conflict with f
+     owns fl k f        entry k of fl covers f, and every entry registered before k conflicts with f
+     attr_trace s rs    the identifier given to each round of the history rs (None: left unattributed), in order *)
+From TV Require Import Proofs.FlowHistory.
+
+(* the extension order in plain terms: e' extends e iff e' is at least as long and has, at every position where e is
+   known, the same address - so an entry can only grow by filling unknown positions or getting longer *)
+Theorem c15_extends_pointwise : forall e e',
+  extends e e' <-> (length e <= length e')%nat /\ forall i a, known_at e i a -> known_at e' i a.
+Proof. exact extends_pointwise. Qed.
+
+(* Flow::check answers NoMatch exactly for conflicting flows, and Match exactly when the entry already covers the flow *)
+Theorem c15_check_decides : forall e f, (check e f = NoMatch <-> conflict e f) /\ (check e f = Match <-> covers e f).
+Proof. intros e f. split; [apply check_nomatch_iff|apply check_match_iff]. Qed.
+
+(* Flow::merge position by position: a known address is kept, an unknown position takes the round's address if it has
+   one, positions beyond the end of the entry are appended *)
+Theorem c15_merge_pointwise : forall e f i,
+  nth_error (merge e f) i =
+  match nth_error e i with
+  | Some (FKnown a) => Some (FKnown a)
+  | Some FUnknown => match nth_error f i with Some (FKnown b) => Some (FKnown b) | _ => Some FUnknown end
+  | None => nth_error f i
+  end.
+Proof. exact merge_pointwise. Qed.
+
+(* which identifier a round gets, as a short rule: the first registered flow it does not conflict with; otherwise the
+   next new identifier if the registry has room; otherwise none *)
+Theorem c15_attribution_rule : forall s r, dense (st_registry s) ->
+  attributed s r =
+  match first_fit (regl s) (round_flow r) with
+  | Some k => Some k
+  | None => if Z.of_nat (length (regl s)) <? st_max_flows s then Some (Z.of_nat (length (regl s)) + 1) else None
+  end.
+Proof. exact attributed_spec. Qed.
+
+Theorem c15_first_fit_meaning : forall fl f,
+  match first_fit fl f with
+  | Some k => exists n e, nth_error fl n = Some (e, k) /\ ~ conflict e f /\
+                forall i x, (i < n)%nat -> nth_error fl i = Some x -> conflict (fst x) f
+  | None => Forall (fun x => conflict (fst x) f) fl
+  end.
+Proof. exact first_fit_spec. Qed.
+
+(* for every history: identifiers stay dense, the bound holds, max_flows is never touched, and every entry keeps its
+   position and identifier while what it records is only ever extended *)
+Theorem c15_history_registry : forall rs s s', dense (st_registry s) -> cap s -> st_run s rs = Ok s' ->
+  dense (st_registry s') /\ cap s' /\ st_max_flows s' = st_max_flows s /\ reg_le (regl s) (regl s').
+Proof. exact st_run_registry. Qed.
+
+(* identifiers are never reassigned, renumbered or removed *)
+Theorem c15_ids_never_change : forall rs s s' e id, dense (st_registry s) -> cap s -> st_run s rs = Ok s' ->
+  In (e, id) (regl s) ->
+  exists e', In (e', id) (regl s') /\ extends e e' /\
+    firstn (length (regl s)) (map snd (regl s')) = map snd (regl s).
+Proof. exact ids_never_change. Qed.
+
+(* STABLE: once a round's flow has been given identifier k, every later round with the same flow is given k, whatever
+   happened in between (new flows, merges, saturation) - and such a round changes nothing in the registry *)
+Theorem c15_flow_id_stable : forall s r s1 k rs s2 r', dense (st_registry s) -> cap s ->
+  update_from_round s r = Ok s1 -> attributed s r = Some k -> st_run s1 rs = Ok s2 ->
+  round_flow r' = round_flow r ->
+  attributed s2 r' = Some k /\
+  forall s3, update_from_round s2 r' = Ok s3 -> regl s3 = regl s2 /\ st_round_flow_id s3 = k.
+Proof. exact flow_id_stable. Qed.
+
+(* a later round whose flow EXTENDS the flow that was given k is never given an earlier identifier: it is given k
+   exactly when it does not conflict with what entry k records by then, otherwise an identifier issued after k or none *)
+Theorem c15_extended_flow_attribution : forall s r s1 k rs s2 r', dense (st_registry s) -> cap s ->
+  update_from_round s r = Ok s1 -> attributed s r = Some k -> st_run s1 rs = Ok s2 ->
+  extends (round_flow r) (round_flow r') ->
+  exists e, In (e, k) (regl s2) /\ covers e (round_flow r) /\
+    match attributed s2 r' with
+    | Some j => (j = k /\ ~ conflict e (round_flow r')) \/ (k < j /\ conflict e (round_flow r'))
+    | None => conflict e (round_flow r')
+    end.
+Proof. exact extended_flow_attribution. Qed.
+
+(* ... and the stronger reading "an extended flow always keeps the identifier" is false: [a,?] -> id 1; [a,b] merges into
+   id 1; [a,c] extends [a,?] but conflicts with what id 1 has become and is given id 2 *)
+Theorem c15_extension_stability_refuted :
+  exists s r s1 k rs s2 r', dense (st_registry s) /\ cap s /\
+    update_from_round s r = Ok s1 /\ attributed s r = Some k /\ st_run s1 rs = Ok s2 /\
+    extends (round_flow r) (round_flow r') /\ attributed s2 r' = Some (k + 1).
+Proof. exact extension_stability_refuted. Qed.
+
+(* the entry of identifier id stays consistent with EVERY round that was attributed to id during the history *)
+Theorem c15_entry_covers_attributed_rounds : forall rs s s' id, dense (st_registry s) -> cap s ->
+  st_run s rs = Ok s' -> id <> 0 ->
+  forall r, In r (flow_rounds id s rs) -> exists e, In (e, id) (regl s') /\ covers e (round_flow r).
+Proof. exact entry_covers_attributed_rounds. Qed.
+
+(* CONSISTENT, after every history from a fresh State: two different identifiers never hold compatible entries *)
+Theorem c15_distinct_ids_conflict : forall rs ms mf s' e1 id1 e2 id2, st_run (state_new ms mf) rs = Ok s' ->
+  In (e1, id1) (regl s') -> In (e2, id2) (regl s') -> id1 <> id2 -> conflict e1 e2.
+Proof. exact distinct_ids_conflict. Qed.
+
+(* the moment an identifier is created: the round's flow conflicts with every existing entry, the new entry is that
+   flow, appended, under the next identifier, and it is the round's flow id *)
+Theorem c15_new_id_conflicts_with_all : forall s r s', dense (st_registry s) -> update_from_round s r = Ok s' ->
+  (length (regl s) < length (regl s'))%nat ->
+  Forall (fun x => conflict (fst x) (round_flow r)) (regl s) /\
+  regl s' = regl s ++ [(round_flow r, Z.of_nat (length (regl s)) + 1)] /\
+  st_round_flow_id s' = Z.of_nat (length (regl s)) + 1.
+Proof. exact new_id_conflicts_with_all. Qed.
+
+(* BOUNDED, for every history: at most max(0, max_flows) entries, identifiers exactly 1..n in order *)
+Theorem c15_history_bounded : forall rs ms mf s', st_run (state_new ms mf) rs = Ok s' ->
+  Z.of_nat (length (regl s')) <= Z.max 0 mf /\ dense (st_registry s') /\
+  map snd (regl s') = zseq 1 (length (regl s')).
+Proof. exact history_bounded. Qed.
+
+(* a round that arrives when the registry is full, exactly: no identifier is created; if some registered flow does not
+   conflict with it the FIRST such flow gets it (and is extended by it); otherwise it is attributed to no flow - registry,
+   current-round flow id and every flow state except the default flow 0 are untouched *)
+Theorem c15_saturated_round : forall s r s', dense (st_registry s) -> cap s ->
+  st_max_flows s <= Z.of_nat (length (regl s)) -> update_from_round s r = Ok s' ->
+  length (regl s') = length (regl s) /\ map snd (regl s') = map snd (regl s) /\
+  match first_fit (regl s) (round_flow r) with
+  | Some k => attributed s r = Some k /\ st_round_flow_id s' = k /\ owns (regl s') k (round_flow r)
+  | None => attributed s r = None /\ st_registry s' = st_registry s /\ st_round_flow_id s' = st_round_flow_id s /\
+            forall id, id <> 0 -> flow_or_new s' id = flow_or_new s id
+  end.
+Proof. exact saturated_round. Qed.
+
+(* once full, the registry keeps its length and identifiers for ever *)
+Theorem c15_saturated_forever : forall rs s s', dense (st_registry s) -> cap s ->
+  st_max_flows s <= Z.of_nat (length (regl s)) -> st_run s rs = Ok s' ->
+  length (regl s') = length (regl s) /\ map snd (regl s') = map snd (regl s).
+Proof. exact saturated_forever. Qed.
+
+(* the last clause of the property in one piece: the state recorded under a non-default identifier is the fold, over a
+   fresh flow state, of exactly the rounds whose attribution is that identifier, in order; flow 0 is the fold of all
+   rounds - so the round count and every hop statistic of a flow are those of exactly these rounds *)
+Theorem c15_per_flow_statistics : forall rs ms mf s' id, st_run (state_new ms mf) rs = Ok s' -> id <> 0 ->
+  fs_run (flow_state_new ms)
+         (map fst (filter (picked id) (combine rs (attr_trace (state_new ms mf) rs)))) = Ok (flow_or_new s' id) /\
+  fs_run (flow_state_new ms) rs = Ok (flow_or_new s' 0).
+Proof. exact per_flow_statistics. Qed.
+
+(* round counts: a flow's count is the number of rounds attributed to it, flow 0 counts every round *)
+Theorem c15_flow_round_counts : forall rs ms mf s' id, st_run (state_new ms mf) rs = Ok s' ->
+  fs_round_count (flow_or_new s' id) = Z.of_nat (length (flow_rounds id (state_new ms mf) rs)) /\
+  fs_round_count (flow_or_new s' 0) = Z.of_nat (length rs) /\
+  (id <> 0 -> length (flow_rounds id (state_new ms mf) rs) =
+              length (filter (fun o => match o with Some j => j =? id | None => false end) (attr_trace (state_new ms mf) rs))).
+Proof. exact flow_round_counts. Qed.
+
+(* State::round_flow_id() is the identifier of the LAST round that was attributed (stale while rounds go unattributed) *)
+Theorem c15_round_flow_id_is_last_attributed : forall rs s s', st_run s rs = Ok s' ->
+  st_round_flow_id s' = last_some (attr_trace s rs) (st_round_flow_id s).
+Proof. exact round_flow_id_is_last_attributed. Qed.
+
+(* per-flow states are never removed; they exist exactly for flow 0 and for the identifiers that received a round *)
+Theorem c15_flow_keys : forall rs s s' id, st_run s rs = Ok s' ->
+  (flows_get (st_flows s') id <> None <->
+   flows_get (st_flows s) id <> None \/ (id = 0 /\ rs <> []) \/ In (Some id) (attr_trace s rs)).
+Proof. exact flow_keys. Qed.
+
+(* REFINEMENT to a specification that never looks at the State: the abstract registry is a plain list of flows (the
+   identifier of an entry is its position + 1); a flow goes to the first entry it does not clash with (which absorbs
+   it), else is appended if fewer than max_flows entries exist, else is dropped.  The identifiers given to the rounds
+   of ANY history and the flows the real registry ends up holding are those of this first-fit run *)
+Theorem c15_attribution_refines_spec : forall rs ms mf s', st_run (state_new ms mf) rs = Ok s' ->
+  spec_trace mf [] (map round_flow rs) = (attr_trace (state_new ms mf) rs, map fst (regl s')).
+Proof. exact attribution_refines_spec_fresh. Qed.
+
+(* the first clause of the property.  sent_hosts r: the hosts of the probes of the round that were put on the wire, in
+   order (None: unanswered).  The flow a round is attributed to is the current-round flow id, is at least as long as the
+   round's flow and records, at every position below the round's path length, the address that answered there *)
+Theorem c15_round_agrees_pointwise : forall s r s' k, dense (st_registry s) -> cap s -> update_from_round s r = Ok s' ->
+  attributed s r = Some k ->
+  exists e, In (e, k) (regl s') /\ st_round_flow_id s' = k /\ (length (round_flow r) <= length e)%nat /\
+    forall i a, (i < Z.to_nat (rr_largest_ttl r))%nat -> nth_error (sent_hosts r) i = Some (Some a) -> known_at e i a.
+Proof. exact round_agrees_pointwise. Qed.
+
+(* "position" is the index among the probes of the round that stand for a hop: answered probes, awaited probes and - since
+   the repair F20 - probes whose send failed (abandoned TCP slots, whose ttl is probed again, have none).  For the rounds the
+   strategy publishes (consecutive ttls from the first ttl of the round, C06) that index is ttl - first ttl.  Witness of the
+   repaired behaviour: over the path [a, b], the round [send of ttl 1 failed, b at ttl 2] has the flow [unknown, b] and
+   keeps identifier 1 (before the repair its flow was [b], which conflicts with [a, b] at position 0: a new identifier) *)
+Theorem c15_failed_probe_keeps_position :
+  exists r1 r2, (forall t a, host_at r2 t = Some a -> host_at r1 t = Some a) /\
+    attr_trace (state_new 10 4) [r1; r2] = [Some 1; Some 1] /\
+    round_flow r1 = [FKnown fh_a; FKnown fh_b] /\ round_flow r2 = [FUnknown; FKnown fh_b].
+Proof. exact failed_probe_keeps_position. Qed.
+
+(* non-vacuity: max_flows = 2 and five rounds over three paths - ids 1 and 2 are created, the third path is left
+   unattributed, a later round of the first path is still attributed to id 1; counts 3 of 5 for flow 1 *)
+Example c15_history_example :
+  let s0 := state_new 10 2 in
+  attr_trace s0 [fh_r1; fh_r4; fh_r3; fh_r2; fh_r1] = [Some 1; Some 2; Some 1; None; Some 1] /\
+  map snd (regl (fh_get (st_run s0 [fh_r1; fh_r4; fh_r3; fh_r2; fh_r1]))) = [1; 2] /\
+  st_round_flow_id (fh_get (st_run s0 [fh_r1; fh_r4; fh_r3; fh_r2; fh_r1])) = 1 /\
+  fs_round_count (flow_or_new (fh_get (st_run s0 [fh_r1; fh_r4; fh_r3; fh_r2; fh_r1])) 1) = 3 /\
+  fs_round_count (flow_or_new (fh_get (st_run s0 [fh_r1; fh_r4; fh_r3; fh_r2; fh_r1])) 0) = 5.
+Proof. exact fh_history_example. Qed.
+
+Example c15_spec_example :
+  fst (spec_trace 2 [] (map round_flow [fh_r1; fh_r4; fh_r3; fh_r2; fh_r1])) = [Some 1; Some 2; Some 1; None; Some 1] /\
+  snd (spec_trace 2 [] (map round_flow [fh_r1; fh_r4; fh_r3; fh_r2; fh_r1])) =
+    [[FKnown fh_a; FKnown fh_c]; [FKnown fh_d; FKnown fh_b]].
+Proof. exact fh_spec_example. Qed.
